@@ -104,7 +104,11 @@ func (m *Impl) Close() {
 func (m *Impl) fresh() {
 	m.Close()
 	m.L = lua.NewState(m.Opts)
+	oldB := m.B
 	m.B = &Budget{}
+	if oldB != nil {
+		m.B.Fault = oldB.Fault // a fault injector installed by the caller survives the state turnover
+	}
 	budgets.Store(m.L.G, m.B)
 	m.registerHost()
 	if m.Extra != nil {
